@@ -71,7 +71,7 @@ def lockstep(rng, chart_factory, n_ops, drive, plain=False):
             if cb['out'] != ca['out']:
                 return 'violation', dict(script=script, checked=ca['out'], ignoring=cb['out'], at=k)
             return 'ended', script
-        keys = ('config', 'ctx', 'iq', 'eq', 'sent', 'memory', 'entry', 'idle', 'time', 'initialized')
+        keys = ('config', 'public_config', 'ctx', 'iq', 'eq', 'sent', 'memory', 'entry', 'idle', 'time', 'initialized')
         diff = [kk for kk in keys if ca['post'][kk] != cb['post'][kk]]
         if cb['out'] != ca['out'] or diff or ca['wpost']['logs'] != cb['wpost']['logs']:
             return 'violation', dict(script=script, checked=ca['out'], ignoring=cb['out'], differing_fields=diff,
@@ -120,6 +120,24 @@ def post(tier, seed):
         stats = dict(ok=0, ended=0, premise_ends=0, violation=0)
         nv = 0
         import pickle
+        # the interpreter corpus first (hand-shaped charts, e.g. conditions reading the configuration in the middle of a micro
+        # step), each under its script, with the recording and with the stock interpreter
+        import corpus_interp
+        for entry in corpus_interp.entries():
+            for plain in (False, True):
+                try:
+                    blob = pickle.dumps(corpus_interp.build(entry)[0])
+                except Exception:  # noqa
+                    continue
+                ops = [op for op in entry[3] if op[0] in ('clock', 'bits', 'queue', 'exec')]
+                it = iter(ops)
+                status, detail = lockstep(rng, (lambda b: (lambda: pickle.loads(b)))(blob), len(ops), lambda r, sc, it=it: next(it), plain=plain)
+                stats[status.replace('-', '_')] += 1
+                stats['corpus_runs'] = stats.get('corpus_runs', 0) + 1
+                if status == 'violation':
+                    nv += 1
+                    v.violation(dict(property=PROP, clause='checked and ignoring runs differ although no condition failed '
+                                                            '(C09_transparent)', corpus=entry[0], detail=detail), tag='corpus_%s' % entry[0])
         for i in range(n):
             if i % 10 == 0:
                 fac = shipped('elevator')
